@@ -61,6 +61,7 @@ var sites = []site{
 	{"opCreate_returnsData", "eth/core/vm/instructions.go", "opCreate", "if", `^suberr\W+(errExecutionReverted|nil)$`, "", "C10 C09"},
 	{"opCreate2_returnsData", "eth/core/vm/instructions.go", "opCreate2", "tree", "", "", "C10 C09"},
 	{"privval_save", "gemmill/types/priv_validator.go", "save", "tree", "", `WriteFileAtomic`, "C03"},
+	{"blockID_equals_shape", "gemmill/types/block.go", "Equals", "tree", "", "", "C13 C15 C02"},
 	{"blockID_equals", "gemmill/types/block.go", "Equals", "return", `bytes\.Equal\(blockID\.Hash`, "", "C13 C15 C02"},
 	{"partSetHeader_equals", "gemmill/types/part_set.go", "Equals", "return", `psh\.Total`, "", "C13 C15 C02 C17"},
 	{"valset_update_total", "gemmill/types/validator_set.go", "Update", "assign", `^valSet\.totalVotingPower$`, "", "C15 C16 C14"},
